@@ -6,7 +6,7 @@
 //           sI<k>=<v>c sI<k>=<v>m  setDelayedValue(int k, const X&) / (int k, X&&)       (sS...: string key)
 //           F<v>                   fulfillAllPromises(v)
 //           rI<k> rS<k>            isRecognized          cI<k> cS<k>  isCompleted         fI<k> fS<k>  finishedWithValue
-//           aw<L>                  await future L (poll wait_for(0) + yield), read it
+//           aw<L>                  await future L (scheduling point enabled when wait_for(0) says ready), read it
 //           po<L>                  poll future L once, read it if ready
 //           af<L>                  harness-level wait until the getFuture call for label L has returned
 // After the threads are done the container is destroyed (with whatever is still pending) and every future
@@ -22,6 +22,7 @@
 #include "gmlc/concurrency/DelayedObjects.hpp"
 
 #include "vclient.hpp"
+#include <sys/personality.h>
 using namespace vclient;
 using gmlc::concurrency::DelayedObjects;
 
@@ -241,18 +242,17 @@ struct Runner {
                 }
             }
         } else if (c0 == 'a' && c1 == 'w') {
+            // harness await: a scheduling point that is enabled once the future is ready (the scheduler polls
+            // wait_for(0) on behalf of the consumer; never a blocking get() it cannot see).  A future that is never
+            // satisfied shows up as a deadlock verdict with this thread blocked.
             std::string lab = o.substr(2);
-            auto have = [&] {
+            auto have = [this, lab] {
                 auto it = label2id.find(lab);
                 return it != label2id.end() && futs.size() > size_t(it->second) && futs[size_t(it->second)].have;
             };
-            while (!have()) {
-                std::this_thread::yield();
-            }
+            verif::sched([have] { return have() ? int(verif::EN) : int(verif::DIS); });
             int id = label2id[lab];
-            while (!ready(id)) {
-                std::this_thread::yield();
-            }
+            verif::sched([this, id] { return ready(id) ? int(verif::EN) : int(verif::DIS); });
             read(id, false);
         } else if (c0 == 'p' && c1 == 'o') {
             auto it = label2id.find(o.substr(2));
@@ -261,13 +261,11 @@ struct Runner {
             }
         } else if (c0 == 'a' && c1 == 'f') {
             std::string lab = o.substr(2);
-            for (;;) {
+            verif::sched([this, lab] {
                 auto it = label2id.find(lab);
-                if (it != label2id.end() && futs.size() > size_t(it->second) && futs[size_t(it->second)].have) {
-                    break;
-                }
-                std::this_thread::yield();
-            }
+                bool ok = it != label2id.end() && futs.size() > size_t(it->second) && futs[size_t(it->second)].have;
+                return ok ? int(verif::EN) : int(verif::DIS);
+            });
         }
     }
 
@@ -402,6 +400,15 @@ static Script gen(Rng& r, int size)
 
 int main(int argc, char** argv)
 {
+    // the tap prints the values stored in the map headers (heap addresses): switch address-space randomisation off
+    // so that a given seed gives the same trace text on every run
+    if (getenv("VERIF_DOBJ_NOASLR") == nullptr) {
+        int pers = personality(0xffffffff);
+        if (pers != -1 && (pers & ADDR_NO_RANDOMIZE) == 0 && personality(pers | ADDR_NO_RANDOMIZE) != -1) {
+            setenv("VERIF_DOBJ_NOASLR", "1", 1);
+            execv("/proc/self/exe", argv);
+        }
+    }
     // every phase (unknown / pending / completed / completed-and-requested-again) x every method, for int keys
     // with the copy overload first and string keys with the move overload first
     const std::string lifeI =
